@@ -207,6 +207,21 @@ def gen_cover_attrs(cases):
                 cases.append((src_case([("M", "a", attrs)]), "cover-attrs"))
 
 
+def gen_cover_attr_case(cases):
+    """attribute names (and namespace declarations) of one tag that differ only in ASCII case: they are different names"""
+    pairs = [("id", "ID"), ("p:ref", "p:Ref"), ("xmlns:p", "xmlns:P"), ("xmlns", "XMLNS"), ("x", "X"), ("p:x", "P:x"),
+             ("xml:lang", "xml:LANG"), ("xmlns:q", "XMLNS:q"), ("Xmlns:p", "xmlns:p")]
+    for a, b in pairs:
+        for first, second in ((a, b), (b, a)):
+            for va, vb in ((U, V), (U, U), ("", V)):
+                attrs = [(first, va), (second, vb)]
+                for outer_decl in ([], [("xmlns:p", W), ("xmlns:P", U)]):
+                    toks = [("S", "o", outer_decl), ("S", "a", attrs), ("M", "p:b", []), ("M", "P:c", [("p:y", "1"), ("P:y", "2")]),
+                            ("E", "a", []), PROBE]
+                    cases.append((src_case(toks), "cover-attr-case"))
+                    cases.append((src_case([("M", "a", attrs)]), "cover-attr-case"))
+
+
 def rand_name(rng, locals_):
     p = rng.choice([None, None, None, "p", "q", "r", "xml", "xmlns"])
     return name(p, rng.choice(locals_))
@@ -283,6 +298,7 @@ def gen_cases(tier, rng):
     gen_cover_kinds(cases)
     gen_cover_nest(cases)
     gen_cover_case(cases)
+    gen_cover_attr_case(cases)
     gen_random(cases, rng, 4000 if tier == "quick" else 400000)
     return cases
 
